@@ -494,6 +494,14 @@ def row_identity(eng, v):
     return buffer_key(eng, v), a[0]
 
 
+def interp_pairs_term(eng, tag, x, row):
+    """PL_<tag>(x, row): value at x of the piecewise-linear function through the (x, y) pairs of row `row` (np.interp, D26)"""
+    ufs = eng.ghost.setdefault("interp_pairs_ufs", {})
+    if tag not in ufs:
+        ufs[tag] = z3.Function("PL_%s" % tag, z3.RealSort(), z3.IntSort(), z3.RealSort())
+    return Num(ufs[tag](V.to_real(to_z3(lift(x))), to_z3(lift(row))))
+
+
 def interp_term(eng, key, x, a, b, m, row):
     ufs = eng.ghost.setdefault("interp_ufs", {})
     if key not in ufs:
@@ -1678,6 +1686,17 @@ class _NP:
         return self._interp_default(x, xp, fp)
 
     def _interp_default(self, x, xp, fp):
+        # abscissae / ordinates that are the two columns of one list of (x, y) pairs carrying a row identity (critical points of one
+        # depth of an exact landscape): the piecewise-linear function through those pairs, as an abstract function of (x, depth)
+        cx, cy = getattr(xp, "column_of", None), getattr(fp, "column_of", None)
+        if cx is not None and cy is not None and cx[0] is not None and cx[0] == cy[0] and (cx[1], cy[1]) == (0, 1) and isinstance(x, Arr) and x.ndim == 1:
+            e = cur()
+            tag, row = cx[0]
+            fx = x.snapshot_fn()
+            return Arr(x.shape, lambda idx: interp_pairs_term(e, tag, fx(idx), row), dtype="float")
+        return self._interp_linspace(x, xp, fp)
+
+    def _interp_linspace(self, x, xp, fp):
         """D26 (assumed contract of the dependency): np.interp(x, xp, fp)[i] is a function of x[i], xp and fp only - the piecewise-linear
         interpolant through (xp, fp), constant beyond the ends.  Modular encoding: for xp = np.linspace(a, b, m) and fp = row r of a
         2-d buffer B the element is INTERP_B(x[i], a, b, m, r) with INTERP_B uninterpreted; other argument forms are not supported."""
